@@ -131,6 +131,7 @@ def _classes():
         ("DerInteger[explicit0]", lambda: asn1.DerInteger(explicit=0), 0xA0, "explicit"),
         ("DerSequence[implicit1]", lambda: asn1.DerSequence(implicit=1), 0xA1, True),
         ("DerOctetString[implicit2]", lambda: asn1.DerOctetString(implicit=2), 0x82, False),
+        ("DerOctetString[implicit0]", lambda: asn1.DerOctetString(implicit=0), 0x80, False),      # tag number 0 is falsy
     ]
 
 
@@ -223,6 +224,10 @@ def der_check(x, acc, part):
                 acc.violation("C13/der-strict/%s/accepts-%s" % (name, bad),
                               "%s().decode(%s, strict=%s) accepted an encoding with %s"
                               % (name, x.hex(), strict, bad), {"part": "der", "x": x})
+            if res == "accept" and tag is not None and x and x[0] != tag:
+                acc.violation("C13/der-tag/%s/accepts-another-tag" % name,
+                              "%s().decode(%s, strict=%s) accepted an element whose identifier octet is %02x; this object stands for the tag %02x"
+                              % (name, x.hex(), strict, x[0], tag), {"part": "der", "x": x})
             if res == "accept":
                 acc.count("accepted")
                 # decode . encode . decode must be stable; canonical input is reproduced
@@ -407,6 +412,8 @@ def _reuse_alphabet(name):
         xs = [bytes([0xA1]) + x[1:] for x in xs if x] + xs[:2]
     elif "[implicit2]" in name:
         xs = [bytes([0x82]) + x[1:] for x in xs if x] + xs[:2]
+    elif "[implicit0]" in name:
+        xs = [bytes([0x80]) + x[1:] for x in xs if x] + xs[:2]
     return xs
 
 
